@@ -142,6 +142,13 @@ func (s *State) closed(comp string, v Term) {
 		idx1, idx2 = SInt, ks
 	case comp == "E!Slice":
 		idx1, idx2 = SInt, SInt
+	case strings.HasPrefix(comp, "F!") && vc.comps[comp] == arraySort(SInt, SSlice):
+		// a slice-typed field of any object
+		al := s.get("alloc")
+		e := fmt.Sprintf("(select %s r)", v.S)
+		arr := "(s_arr " + e + ")"
+		vc.assume(T(fmt.Sprintf("(forall ((r Int)) (! (or (= %s 0) (and (select %s (|baseOf| %s)) (= (|baseOf| %s) %s))) :pattern (%s)))", arr, al.S, arr, arr, arr, e), SBool))
+		return
 	default:
 		return
 	}
